@@ -10,7 +10,7 @@ ECO_OF = {"deb": "debian", "generic": "semver"}
 def model(run, K, schemes=SCHEMES, name=None, timeout=1500, chain=1):
     cfg = vlib.cfg_consts(K=K, Schemes=set(schemes), ChainNo=chain) + \
         "INIT VInit\nNEXT VNext\nINVARIANT SweepIsDen\nINVARIANT SingleIsComparator\nINVARIANT Emit\nCHECK_DEADLOCK FALSE\n"
-    lines, st, dt = vlib.tlc(run, "MC_Vers", cfg, name=name or ("vers.K%d.c%d" % (K, chain)), workers=8, timeout=timeout, heap="8g")
+    lines, st, dt = vlib.tlc(run, "MC_Vers", cfg, name=name or ("vers.K%d.c%d" % (K, chain)), workers=8, timeout=timeout, heap="8g", coverage=(chain == 1))
     return vlib.tagged(lines, "VEC")
 
 def chains(run, chain=1):
